@@ -13,6 +13,11 @@ def main(tier, replay=None):
         dict(name="passes-l3", opts=[M, "msgs=l3", "concl=3", "verdicts=KZ", "reorder=1", "signals=0"], bounds="0,0,0,%d" % (3 if q else 5), total=5, deadline=1800),
         dict(name="passes-l2-all-verdicts", opts=[M, "msgs=l2", "signals=0"], bounds="0,0,0,%d" % (2 if q else 4), total=4, deadline=1800),
         dict(name="lost-spawner-restart-l3", opts=[M, "msgs=l3", "concl=2", "signals=0", "verdicts=KDE", "reorder=2"], bounds="0,0,0,%d" % (2 if q else 4), total=4, deadline=1800),
+        dict(name="faults-l1r1", opts=[M, "msgs=l1r1", "signals=0", "verdicts=KZ", "reorder=1"], bounds="0,1,0,%d" % (1 if q else 2), total=2 if q else 3, deadline=1800),
+        dict(name="faults-l2-second-message", opts=[M, "msgs=l2+l1b", "inject=event", "signals=0", "verdicts=K", "reorder=1"], bounds="0,1,0,%d" % (1 if q else 2), total=2 if q else 3, deadline=1800),
+        # every attempt is deferred unless chosen otherwise (the default answer costs nothing), so restarts find both channels pending
+        dict(name="deferred-restart-fault-and-slow-deliveries", opts=[M, "msgs=l1r1", "verdicts=ZKT", "reorder=1", "concl=2"] + (["maxticks=4", "signals=2"] if q else ["maxticks=8"]), bounds="0,1,0,2", total=3, deadline=2400, qcap=0 if q else 3000000),
+        dict(name="slow-deliveries-l3", opts=[M, "msgs=l3", "concl=2", "signals=0", "verdicts=KZT", "reorder=2"], bounds="0,0,0,%d" % (3 if q else 4), total=4, deadline=1800),
         dict(name="crash-l1r1", opts=[M, "msgs=l1r1", "signals=0"], bounds="0,0,1,%d" % (1 if q else 2), total=2 if q else 3, deadline=1800),
         dict(name="two-crashes-l1r1", opts=[M, "msgs=l1r1", "signals=0"], bounds="0,0,2,0", total=2, tier="thorough", deadline=1800),
         dict(name="crash-l2", opts=[M, "msgs=l2", "signals=0", "verdicts=KZD", "reorder=1"], bounds="0,0,1,%d" % (1 if q else 3), total=3 if q else 4, deadline=1800),
@@ -26,7 +31,7 @@ def main(tier, replay=None):
     run_families(res, "C04", tier, fams)
     res.rule = ("same history exploration as C03 (real qmail-send/qmail-clean/qmail-queue under the virtual kernel) with the C04 monitors: at every "
                 "delivery command the named record must be T in the on-disk recipient list and have no outstanding attempt, outstanding attempts "
-                "per channel <= min(configured, announced), no attempt after a K/D report in crash-free histories, every completion mark lands on "
+                "per channel <= min(configured, announced), no attempt after a K/D report in crash-free histories (also with slow deliveries: time passing to the daemon's next deadline while attempts are outstanding; with single failing calls of qmail-send and qmail-clean; with every attempt deferred by default so that restarts find work on both channels), every completion mark lands on "
                 "the reported recipient's own record, limits taken from the daemon's own status line equal min(configured, announced) for the grid "
                 "configured {0,1,2,200,250} x announced {0,1,2,128,200,255}")
     res.assumptions = ["virtual kernel (appendix A)", "recipient addresses are pairwise distinct so that a delivery command identifies its record", "a mark lost with un-fsynced data is not counted against the code"]
